@@ -30,3 +30,38 @@ extern "C" int64_t w_scriptnum_roundtrip(int64_t v, int require_minimal) {
 }
 '''
     return t
+
+# ---- script decoding leaves (C01 L0): GetScriptOp, CScript::HasValidOps, CastToBool, CheckMinimalPush -------------------
+def unit_decode():
+    t = '#include "verif_std.h"\n#include "decode_env.h"\n'
+    t += between('script/script.h', r'^// Maximum number of bytes pushable to the stack', r'^// Maximum number of non-push operations per script', include_end=False)
+    t += block('script/script.h', r'^enum opcodetype')
+    t += between('script/script.h', r'^static const unsigned int MAX_OPCODE = ', r'^std::string GetOpName', include_end=False)
+    t += '#include "decode_env_script.h"\n'
+    g = block('script/script.cpp', r'^bool GetScriptOp\(CScriptBase::const_iterator& pc, CScriptBase::const_iterator end, opcodetype& opcodeRet, std::vector<unsigned char>\* pvchRet\)', trailing=None)
+    g = rewrite(g, [(r'CScriptBase::const_iterator', 'const unsigned char*', 2)])
+    t += g
+    t += block('script/script.cpp', r'^bool CScript::HasValidOps\(\) const', trailing=None, open_at_bol=True)
+    t += block('script/script.cpp', r'^bool CheckMinimalPush\(', trailing=None)
+    t += 'typedef verif_bytes valtype;\n' + block('script/interpreter.cpp', r'^bool CastToBool\(const valtype& vch\)', trailing=None)
+    t = rewrite(t, R_TYPES + R_LIMITS)
+    return t + '\n#include "h_decode.h"\n'
+
+# ---- compact-size codec (C13 leaves) ------------------------------------------------------------------------------------
+def unit_compactsize():
+    t = '#include "verif_std.h"\n#include "ser_env.h"\n'
+    t += between('serialize.h', r'^static constexpr uint64_t MAX_SIZE = 0x02000000;', r'^/\*\* Maximum amount of memory', include_end=False)
+    t += block('serialize.h', r'^inline unsigned int GetSizeOfCompactSize\(uint64_t nSize\)', trailing=None)
+    t += block('serialize.h', r'^void WriteCompactSize\(Stream& os, uint64_t nSize\)', trailing=None).replace('void WriteCompactSize', 'template<typename Stream>\nvoid WriteCompactSize', 1)
+    t += block('serialize.h', r'^uint64_t ReadCompactSize\(Stream& is, bool range_check = true\)', trailing=None).replace('uint64_t ReadCompactSize', 'template<typename Stream>\nuint64_t ReadCompactSize', 1)
+    t = rewrite(t, [(r'std::numeric_limits<unsigned int>::(max|min)\(\)', r'VERIF_LIMIT_unsigned_int_\1', None)] + R_LIMITS)
+    t = r_throw(t, [(r'std::ios_base::failure\("non-canonical ReadCompactSize\(\)"\)', 'VT_IOS_FAILURE'), (r'std::ios_base::failure\("ReadCompactSize\(\): size too large"\)', 'VT_IOS_FAILURE')], 4)
+    return t + '\n#include "h_compactsize.h"\n'
+
+# ---- Instance::parse_input_transaction (C03 fragment) -------------------------------------------------------------------
+def unit_parse_input():
+    t = '#include "verif_std.h"\n#include "tx_env.h"\n'
+    f = block('instance.cpp', r'^bool Instance::parse_input_transaction\(const char\* txdata, int select_index\)', trailing=None)
+    # R-RANGEFOR: range-for over the input vector -> index loop in the same order
+    f = rewrite(f, [(r'for \(const auto& input : tx->vin\) \{', 'for (size_t verif_k = 0; verif_k < tx->vin.size(); ++verif_k) { const CTxIn& input = tx->vin[verif_k];', 1)])
+    return t + f + '\n#include "h_parse_input.h"\n'
